@@ -84,7 +84,7 @@ def run(prop, key, direction):
                 res.inst(prop + ".R4", f.desc)
             else:
                 res.violate(prop + ".R4", f.where, f.construct, f.msg, file=f.file, line=f.line)
-    res.floor(prop + ".R4", 10)
+    res.floor(prop + ".R4", 4)
     # R2 / R3 behaviour table by abstract interpretation of the closure
     cb = facts.bodies.get(mine[0]["closure"])
     if cb is None:
